@@ -3,6 +3,8 @@ package c08
 
 import (
 	"context"
+	"crypto/sha256"
+	"database/sql"
 	"encoding/base64"
 	"encoding/json"
 	"errors"
@@ -22,6 +24,7 @@ import (
 	"google.golang.org/protobuf/proto"
 
 	"verif/internal/ctfex"
+	"verif/internal/derx"
 	"verif/internal/harness"
 	"verif/internal/keys"
 	"verif/internal/memstore"
@@ -33,7 +36,7 @@ import (
 
 // Fault is one injected backend misbehaviour.
 type Fault struct {
-	Kind  string // code | plain | ctx-deadline | ctx-cancel | reply | beyond-tree
+	Kind  string // code | plain | ctx-deadline | ctx-cancel | reply | beyond-tree | storage (the chain storage of a log with external chains fails its reads: Reply names the error class)
 	Code  int    // gRPC status code for Kind == code
 	Reply string // name of the reply malformation for Kind == reply
 }
@@ -70,7 +73,7 @@ var replyFaults = map[string][]string{
 	"get-sth":             append(append([]string{}, rootGarbles...), "roothash-0", "roothash-31", "roothash-33"),
 	"get-sth-consistency": append(append([]string{}, rootGarbles...), "proof-absent", "proof-hash-0", "proof-hash-31", "proof-hash-33"),
 	"get-proof-by-hash":   append(append([]string{}, rootGarbles...), "proof-list-empty", "proof-hash-0", "proof-hash-31", "proof-hash-33", "proof-hash-31-then-good-proof", "proof-hash-0-then-good-proof"),
-	"get-entries":         append(append([]string{}, rootGarbles...), "surplus-leaves", "surplus-one", "index-off", "out-of-order", "inner-swap", "inner-duplicate", "inner-foreign"),
+	"get-entries":         append(append([]string{}, rootGarbles...), "surplus-leaves", "surplus-one", "index-off", "shifted-run", "single-leaf-elsewhere", "out-of-order", "inner-swap", "inner-duplicate", "inner-foreign"),
 	"get-entry-and-proof": append(append([]string{}, rootGarbles...), "leaf-absent", "leafvalue-empty", "proof-absent", "proof-empty"),
 }
 
@@ -114,6 +117,12 @@ func matrix() []Cell {
 					if ep == "get-entries" && !mapper {
 						out = append(out, Cell{Endpoint: ep, Fault: f, Mask: mask, SmallMax: true})
 					}
+					if entryEP && f.Kind == "plain" {
+						// the chain storage behind a log with external chains is a backend too
+						for _, class := range []string{"plain", "deadline", "status-deadline", "canceled", "unavailable", "no-rows"} {
+							out = append(out, Cell{Endpoint: ep, Fault: Fault{Kind: "storage", Reply: class}, Mask: mask, Mapper: mapper, Indirect: true})
+						}
+					}
 					if entryEP && !mapper {
 						out = append(out, Cell{Endpoint: ep, Fault: f, Mask: mask, Bulky: true}, Cell{Endpoint: ep, Fault: f, Mask: mask, Bulky: true, Indirect: true})
 					}
@@ -129,6 +138,10 @@ func matrix() []Cell {
 type fixture struct {
 	leaves [][2][]byte // leaf value, extra data
 	hashes [][]byte
+	// for logs with external chain storage: the hash-form extra data of each leaf and the storage rows
+	hashExtra [][]byte
+	chainKey  []string
+	chainDER  [][]byte
 }
 
 var (
@@ -152,6 +165,21 @@ func getFixtureB(bulky bool) *fixture {
 				panic(err)
 			}
 			fixes[k].leaves = append(fixes[k].leaves, [2][]byte{lv, b.ExtraData()})
+			var parts [][]byte
+			for _, c := range b.Full[1:] {
+				parts = append(parts, derx.Seq(derx.Octets(c)))
+			}
+			chain := derx.Seq(parts...)
+			sum := sha256.Sum256(chain)
+			var hx []byte
+			if b.Spec.Precert {
+				l := len(b.Full[0])
+				hx = append(append(hx, byte(l>>16), byte(l>>8), byte(l)), b.Full[0]...)
+			}
+			hx = append(append(hx, 0, 32), sum[:]...)
+			fixes[k].hashExtra = append(fixes[k].hashExtra, hx)
+			fixes[k].chainKey = append(fixes[k].chainKey, string(sum[:]))
+			fixes[k].chainDER = append(fixes[k].chainDER, chain)
 			h := mtree.LeafHash(lv)
 			fixes[k].hashes = append(fixes[k].hashes, h[:])
 		}
@@ -185,10 +213,25 @@ const rpcDeadline = 7 * time.Second
 
 func newRig(t *testing.T, mask, mapper, indirect bool) *rig { return newRigB(t, mask, mapper, indirect, false) }
 
+// newRigMapped is a rig whose ErrorMapper turns every backend error into one fixed status.
+func newRigMapped(t *testing.T, mask, indirect bool, statusCode int) *rig {
+	mapAll = statusCode
+	defer func() { mapAll = 0 }()
+	return newRigB(t, mask, true, indirect, false)
+}
+
+var mapAll int
+
 func newRigB(t *testing.T, mask, mapper, indirect, bulky bool) *rig {
 	f := getFixtureB(bulky)
+	all := mapAll
 	r := &rig{be: reflog.New(6962, 1), clock: ctfex.NewClock(time.Date(2024, 3, 1, 12, 0, 0, 500, time.UTC))}
-	for _, l := range f.leaves {
+	for i, l := range f.leaves {
+		if indirect && i%2 == 1 {
+			// every other stored entry is in the hash-addressed layout: its chain lives in the chain storage
+			r.be.AppendRaw(l[0], f.hashExtra[i])
+			continue
+		}
 		r.be.AppendRaw(l[0], l[1])
 	}
 	r.be.Publish(1234567890)
@@ -198,9 +241,15 @@ func newRigB(t *testing.T, mask, mapper, indirect, bulky bool) *rig {
 		if mapper {
 			io.ErrorMapper = errMapper
 		}
+		if all != 0 {
+			io.ErrorMapper = func(error) (int, bool) { return all, true }
+		}
 	}}
 	if indirect {
 		r.store = memstore.New()
+		for i := range f.chainKey {
+			r.store.M[f.chainKey[i]] = f.chainDER[i]
+		}
 		o.ChainStorage = r.store
 	}
 	inst, err := ctfex.New(o)
@@ -384,6 +433,15 @@ func mutateReply(how string, rsp proto.Message) proto.Message {
 			}
 		case how == "index-off":
 			r.Leaves[len(r.Leaves)-1].LeafIndex++
+		case how == "shifted-run":
+			// an unbroken run that starts one index late
+			for _, l := range r.Leaves {
+				l.LeafIndex++
+			}
+		case how == "single-leaf-elsewhere":
+			// one leaf only, and not the one asked for first
+			r.Leaves = r.Leaves[:1]
+			r.Leaves[0].LeafIndex++
 		case how == "inner-swap" && len(r.Leaves) >= 4:
 			// both ends in place, two inner leaves exchanged
 			r.Leaves[1], r.Leaves[2] = r.Leaves[2], r.Leaves[1]
@@ -444,6 +502,8 @@ func expect(f Fault, mapper bool) string {
 		}
 	case "plain", "ctx-deadline", "ctx-cancel":
 		return "5xx"
+	case "storage":
+		return "non-200"
 	case "beyond-tree":
 		return "4xx-not-429"
 	case "reply":
@@ -485,8 +545,29 @@ func faultErr(f Fault) error {
 	return nil
 }
 
+func storageErr(class string) error {
+	switch class {
+	case "deadline":
+		return fmt.Errorf("chain storage: %w", context.DeadlineExceeded)
+	case "status-deadline":
+		return status.Error(codes.DeadlineExceeded, "chain storage")
+	case "canceled":
+		return fmt.Errorf("chain storage: %w", context.Canceled)
+	case "unavailable":
+		return status.Error(codes.Unavailable, "chain storage")
+	case "no-rows":
+		return sql.ErrNoRows
+	}
+	return errors.New("chain storage: injected failure")
+}
+
 // arm installs the fault for the n-th call (0-based, counted from now) of the endpoint's RPC.
 func (r *rig) arm(ep string, f Fault, nth int) {
+	if f.Kind == "storage" {
+		err := storageErr(f.Reply)
+		r.store.FailGet = func(int) error { return err }
+		return
+	}
 	rpc := rpcOf[ep]
 	base := len(r.be.CallsOf(rpc))
 	target := base + nth
@@ -640,10 +721,24 @@ func checkCell(t *testing.T, c Cell) (v harness.Verdict) {
 		}
 		v.Class("small-max-aligned-range")
 	}
+	if c.Fault.Kind == "storage" {
+		if c.Endpoint == "get-entries" {
+			q.query = "start=0&end=3"
+		} else {
+			q.query = fmt.Sprintf("leaf_index=1&tree_size=%d", fixSize)
+		}
+	}
 	o := r.do(q)
 	v.Class("ep:"+c.Endpoint, "fault:"+c.Fault.Kind)
+	if c.Fault.Kind == "storage" {
+		if g, _ := 0, 0; g == 0 {
+			if _, gets := r.store.Calls(); gets == 0 && o.panicked == nil {
+				v.Failf("harness-fault-not-hit", "%v: the chain storage was not read, the fault cannot have been exercised", c)
+			}
+		}
+	}
 	judgeFault(&v, r, c.Endpoint, c.Fault, c.Mask, c.Mapper, o, "matrix")
-	if len(o.calls) != 1 && o.panicked == nil {
+	if len(o.calls) != 1 && o.panicked == nil && c.Fault.Kind != "storage" {
 		v.Failf("harness-fault-not-hit", "%v: request made %d backend calls, the fault cannot have been exercised", c, len(o.calls))
 	}
 	return v
